@@ -340,7 +340,10 @@ def run(ctx):
     # probe of the recorded finding
     vm = dict(library="VecLib", language="c++", options={"wrap_python": False, "wrap_lua": False}, format={}, decls=[
         dict(kind="func", name="vsum", rtype="int", rattrs="", rrow="RN", rT="int", const=False, static=False, options={}, format={}, extra={},
-             py=False, lua=False, params=[smallgen.P("a0", "const std::vector<double> &a0", "", "V1in", "double", c=False)])])
+             py=False, lua=False, params=[smallgen.P("a0", "const std::vector<double> &a0", "", "V1in", "double", c=False),
+                                          # (a string argument makes Shroud write the _CFI variant, in which the
+                                          #  vector argument is not converted)
+                                          smallgen.P("a1", "const std::string &a1", "", "S3in", "string", c=False)])])
     out = _sg_job((0, vm, {"F_CFI": True}))
     ctx.case(label="probe")
     if out["problems"]:
